@@ -323,6 +323,8 @@ func (e *Engine) execSend(st *State, fr *Frame, x *ssa.Send) {
 	if c, label, ok := e.chanElemCond(st, fr, x.Chan, e.get(st, fr, x.X)); ok {
 		e.Assert(st, fr, "send", fr.sites[x]+":"+label, c)
 	}
+	// what is sent is shared with whoever receives it
+	st.escape(e.get(st, fr, x.X))
 	e.note("channel send: modelled as a no-op on the abstract state")
 }
 
@@ -372,6 +374,7 @@ func (e *Engine) execSelect(st *State, fr *Frame, x *ssa.Select, k func(*State))
 				e.Assert(s, fr, "send", fr.sites[x]+":"+label, c)
 			}
 			s.Assume(Not(e.chanClosed(s, chans[idx], nil)))
+			s.escape(e.get(s, fr, x.States[idx].Send))
 			s.ghost["sent!"+fr.sites[x]] = TTrue
 		}
 		s.ghost["taken!"+fr.sites[x]] = IntLit(int64(idx))
